@@ -312,6 +312,44 @@ def clause3_state(ctx, P):
                     conds.append((atom, pol))
         ok = len(exits) >= 2
     ctx.ob("C09.3 R-LOOP", gr, "drain-until-negative-or-closed", ok, "the reader loop does not drain the socket until a negative class or close (edge-triggered discipline)")
+    # ... and for nothing else: every condition under which the loop is left is a verdict of the reader or of the read callback.  A
+    # round counter (fairness cap) leaves input unread that no further readiness event will announce (the sockets are edge-triggered)
+    def cond_leaves(o, seen):
+        out = set()
+        st = [o]
+        while st:
+            x = st.pop()
+            if not isinstance(x, int):
+                continue
+            if x < gr.nparams or x in seen:
+                continue
+            seen.add(x)
+            d = gr.insts[x]
+            if d.op == "call":
+                if d.callee and P.srcname_of(d.callee).startswith("llvm.expect"):
+                    st.append(d.a[0])
+                else:
+                    out.add("icall" if not d.callee else "call:" + P.srcname_of(d.callee))
+            elif d.op == "phi":
+                st.extend(v_ for v_, _ in d.inc)
+            elif d.op == "load":
+                out.add("load")
+            else:
+                st.extend(a for a in d.a if isinstance(a, int))
+        return out
+    badx = None
+    if len(loops) == 1:
+        (h, body), = loops.items()
+        for b in body:
+            t = gr.term_inst(b)
+            if t.op == "br" and len(t.succ) == 2 and any(s2 not in body for s2 in t.succ):
+                lv = cond_leaves(t.a[0], set())
+                if "icall" not in lv:
+                    badx = t
+    ctx.ob("C09.3 R-LOOP", gr, "reader-loop-left-only-on-a-reader-verdict", badx is None and len(loops) == 1,
+           "go_reading() can leave its loop at %s on a condition that is no verdict of the reader or of the read callback (a round "
+           "counter, say): complete messages that are already in the socket stay unread until the peer sends again" %
+           (badx.loc if badx else "?"))
     # readiness bits: everything the loop registers for (besides the edge-trigger flag) is dispatched as data, not as an error
     add = P.fn("eventloop_epoll.c:eventloop_epoll_add")
     he = P.fn("eventloop_epoll.c:handle_events")
